@@ -19,9 +19,11 @@ import (
 	"os"
 	"os/exec"
 	"path/filepath"
+	"runtime/debug"
 	"sort"
 	"strings"
 	"sync"
+	"sync/atomic"
 	"time"
 
 	"github.com/openconfig/goyang/pkg/yang"
@@ -225,6 +227,8 @@ type childAns struct {
 }
 
 func childMain() {
+	// a runaway recursion should die after 32 MB of stack, not after the default 1 GB (seconds per case)
+	debug.SetMaxStack(32 << 20)
 	// FindModule falls back to reading <name>.yang from the current directory: run where there is none
 	dir, err := os.MkdirTemp("", "corr-c11-")
 	if err == nil {
@@ -325,10 +329,14 @@ func (c *child) ask(tc tcase) ([]string, bool) {
 			return []string{"crash unreadable child answer"}, false
 		}
 		return ans.Dumps, true
-	case <-time.After(30 * time.Second):
-		return []string{"crash no answer within 30 s (hang)"}, false
+	case <-time.After(10 * time.Second):
+		return []string{"crash no answer within 10 s (hang)"}, false
 	}
 }
+
+var childDeaths int64
+
+const maxChildDeaths = 64
 
 // runGo runs all cases on `procs` children, preserving order.
 func runGo(cases []tcase, procs int) [][]string {
@@ -345,6 +353,10 @@ func runGo(cases []tcase, procs int) [][]string {
 			defer wg.Done()
 			var c *child
 			for i := range next {
+				if atomic.LoadInt64(&childDeaths) >= maxChildDeaths {
+					out[i] = []string{"skipped"} // mass crash: enough evidence, do not grind through the rest
+					continue
+				}
 				if c == nil {
 					var err error
 					if c, err = startChild(); err != nil {
@@ -354,6 +366,7 @@ func runGo(cases []tcase, procs int) [][]string {
 				d, alive := c.ask(cases[i])
 				out[i] = d
 				if !alive {
+					atomic.AddInt64(&childDeaths, 1)
 					c.stop()
 					c = nil
 				}
@@ -928,156 +941,157 @@ func main() {
 	}
 	res := lib.NewResult("C11", f)
 
-	// ---- inputs
-	var cases []tcase
-	cases = append(cases, corpusCases("corpus/C11")...)
-	cases = append(cases, seedCases()...)
-	nSeed := len(cases)
-	var small []tcase
-	if f.Thorough() {
-		small = enumerateSmall(3, 4, nil)
-	} else {
-		rng := f.Rand(0)
-		small = enumerateSmall(3, 4, func() bool { return rng.Intn(8) == 0 })
-	}
-	cases = append(cases, small...)
-	nRandom := 6000
-	if f.Thorough() {
-		nRandom = 150000
-	}
-	for i := 0; i < nRandom; i++ {
-		tc := genRandom(f.Rand(1000+i), i)
-		if f.Thorough() {
-			tc.Runs = 8
-		}
-		cases = append(cases, tc)
-	}
-
-	// ---- Go
-	goOut := runGo(cases, f.Procs)
-
-	// ---- model and specification
-	wires := make([]string, len(cases))
-	var reqs []string
-	type slot struct{ m0, m1, spec int }
-	slots := make([]slot, len(cases))
-	for i, tc := range cases {
-		w, err := wireOf(tc)
-		if err != nil {
-			res.AddDisagreement(lib.Disagreement{Kind: "crash", Input: tc, Go: err.Error(), What: "generic parser rejected a generated text", Replay: tc})
-			slots[i] = slot{-1, -1, -1}
-			continue
-		}
-		wires[i] = w
-		slots[i].m0 = len(reqs)
-		reqs = append(reqs, "ident 0 "+w)
-		slots[i].m1 = len(reqs)
-		reqs = append(reqs, fmt.Sprintf("ident %d %s", 3+2*(i%7), w))
-		slots[i].spec = -1
-		if sr, ok := specRequest(w, goOut[i][0]); ok {
-			slots[i].spec = len(reqs)
-			reqs = append(reqs, sr)
-		}
-	}
-	ans, err := lib.ParBatch(f.Driver, reqs, f.Procs)
-	if err != nil {
-		lib.Fatal("driver: %v", err)
-	}
-
-	// ---- compare
 	distinct := lib.NewDistinct()
-	var nNontrivial int64
+	var nNontrivial, nCases, nReqs int64
 	tags := map[string]int64{}
 	outcomes := map[string]int64{}
 	examined := 0
-	for i, tc := range cases {
-		if slots[i].m0 < 0 {
-			continue
-		}
-		g := goOut[i]
-		model := ans[slots[i].m0]
-		modelB := ans[slots[i].m1]
-		if strings.HasPrefix(model, "linkfail") {
-			model = "linkfail" // which includes fail first is outside this model; only the fact is compared
-		}
-		if strings.HasPrefix(modelB, "linkfail") {
-			modelB = "linkfail"
-		}
-		tags[strings.Fields(tc.Tag)[0]]++
-		outcomes[strings.Fields(g[0])[0]]++
-		if distinct.Add(tc.key()) && nontrivial(g[0]) {
-			nNontrivial++
-		}
-		if i%(len(cases)/7+1) == 0 {
-			res.AddSample(map[string]any{"tag": tc.Tag, "files": tc.Files, "go": decodeDump(g[0]), "model": decodeDump(model)})
-		}
-		report := func(d lib.Disagreement) {
-			if examined >= 50 {
-				res.Count("disagreements_not_examined", 1)
-				return
+
+	// processBatch: Go (children), model and specification (driver), comparison.
+	processBatch := func(cases []tcase) {
+		goOut := runGo(cases, f.Procs)
+		var reqs []string
+		type slot struct{ m0, m1, spec int }
+		slots := make([]slot, len(cases))
+		for i, tc := range cases {
+			w, err := wireOf(tc)
+			if err != nil {
+				res.AddDisagreement(lib.Disagreement{Kind: "crash", Input: tc, Go: err.Error(), What: "generic parser rejected a generated text", Replay: tc})
+				slots[i] = slot{-1, -1, -1}
+				continue
 			}
-			examined++
-			d.Input = tc
-			d.Replay = tc
-			res.AddDisagreement(d)
-		}
-		crashed := false
-		for k, d := range g {
-			if strings.HasPrefix(d, "crash") {
-				report(lib.Disagreement{Kind: "crash", Go: d, Model: decodeDump(model), SpecVerdict: "violates",
-					What: fmt.Sprintf("Go crashed on run %d of this source set: %s", k, d)})
-				crashed = true
-				break
+			slots[i].m0 = len(reqs)
+			reqs = append(reqs, "ident 0 "+w)
+			slots[i].m1 = len(reqs)
+			reqs = append(reqs, fmt.Sprintf("ident %d %s", 3+2*(i%7), w))
+			slots[i].spec = -1
+			if sr, ok := specRequest(w, goOut[i][0]); ok {
+				slots[i].spec = len(reqs)
+				reqs = append(reqs, sr)
 			}
 		}
-		if crashed {
-			continue
+		ans, err := lib.ParBatch(f.Driver, reqs, f.Procs)
+		if err != nil {
+			lib.Fatal("driver: %v", err)
 		}
-		differ := false
-		for k := 1; k < len(g); k++ {
-			if g[k] != g[0] {
-				report(lib.Disagreement{Kind: "spec", Go: []string{decodeDump(g[0]), decodeDump(g[k])}, Model: decodeDump(model), SpecVerdict: "violates",
-					What: fmt.Sprintf("the result for one source set differs between run 0 and run %d (fresh Modules, load order %v): it is not a function of the schema", k, tc.order(k))})
-				differ = true
-				break
+		nReqs += int64(len(reqs))
+		nCases += int64(len(cases))
+		for i, tc := range cases {
+			if slots[i].m0 < 0 {
+				continue
 			}
-		}
-		if differ {
-			continue
-		}
-		verdict, why := "holds", "not evaluated (no identity table)"
-		if slots[i].spec >= 0 {
-			verdict, why = decodeVerdict(ans[slots[i].spec])
-		}
-		if model != modelB {
-			report(lib.Disagreement{Kind: "correspondence", Go: decodeDump(g[0]), Model: []string{decodeDump(model), decodeDump(modelB)}, SpecVerdict: verdict,
-				What: "the model's result depends on the map iteration oracle on this input; spec on the Go result: " + why})
-			continue
-		}
-		if g[0] != model {
-			report(lib.Disagreement{Kind: "correspondence", Go: decodeDump(g[0]), Model: decodeDump(model), SpecVerdict: verdict,
-				What: "identity tables of Go and model differ; spec on the Go result: " + why})
-			continue
-		}
-		if verdict == "violates" {
-			report(lib.Disagreement{Kind: "spec", Go: decodeDump(g[0]), Model: decodeDump(model), SpecVerdict: "violates",
-				What: "Go and model agree but the specification rejects the result: " + why})
+			g := goOut[i]
+			model := ans[slots[i].m0]
+			modelB := ans[slots[i].m1]
+			if strings.HasPrefix(model, "linkfail") {
+				model = "linkfail" // which includes fail first is outside this model; only the fact is compared
+			}
+			if strings.HasPrefix(modelB, "linkfail") {
+				modelB = "linkfail"
+			}
+			tags[strings.Fields(tc.Tag)[0]]++
+			outcomes[strings.Fields(g[0])[0]]++
+			if distinct.Add(tc.key()) && nontrivial(g[0]) {
+				nNontrivial++
+			}
+			if i%(len(cases)/3+1) == 1 {
+				res.AddSample(map[string]any{"tag": tc.Tag, "files": tc.Files, "go": decodeDump(g[0]), "model": decodeDump(model)})
+			}
+			report := func(d lib.Disagreement) {
+				if examined >= 50 {
+					res.Count("disagreements_not_examined", 1)
+					return
+				}
+				examined++
+				d.Input = tc
+				d.Replay = tc
+				res.AddDisagreement(d)
+			}
+			if g[0] == "skipped" {
+				res.Count("skipped_after_mass_crash", 1)
+				continue
+			}
+			crashed := false
+			for k, d := range g {
+				if strings.HasPrefix(d, "crash") {
+					report(lib.Disagreement{Kind: "crash", Go: d, Model: decodeDump(model), SpecVerdict: "violates",
+						What: fmt.Sprintf("Go crashed on run %d of this source set: %s", k, d)})
+					crashed = true
+					break
+				}
+			}
+			if crashed {
+				continue
+			}
+			differ := false
+			for k := 1; k < len(g); k++ {
+				if g[k] != g[0] {
+					report(lib.Disagreement{Kind: "spec", Go: []string{decodeDump(g[0]), decodeDump(g[k])}, Model: decodeDump(model), SpecVerdict: "violates",
+						What: fmt.Sprintf("the result for one source set differs between run 0 and run %d (fresh Modules, load order %v): it is not a function of the schema", k, tc.order(k))})
+					differ = true
+					break
+				}
+			}
+			if differ {
+				continue
+			}
+			verdict, why := "holds", "not evaluated (no identity table)"
+			if slots[i].spec >= 0 {
+				verdict, why = decodeVerdict(ans[slots[i].spec])
+			}
+			if model != modelB {
+				report(lib.Disagreement{Kind: "correspondence", Go: decodeDump(g[0]), Model: []string{decodeDump(model), decodeDump(modelB)}, SpecVerdict: verdict,
+					What: "the model's result depends on the map iteration oracle on this input; spec on the Go result: " + why})
+				continue
+			}
+			if g[0] != model {
+				report(lib.Disagreement{Kind: "correspondence", Go: decodeDump(g[0]), Model: decodeDump(model), SpecVerdict: verdict,
+					What: "identity tables of Go and model differ; spec on the Go result: " + why})
+				continue
+			}
+			if verdict == "violates" {
+				report(lib.Disagreement{Kind: "spec", Go: decodeDump(g[0]), Model: decodeDump(model), SpecVerdict: "violates",
+					What: "Go and model agree but the specification rejects the result: " + why})
+			}
 		}
 	}
-	res.Evaluations = int64(len(cases))
+
+	// ---- corpus and seed witnesses, then the complete enumeration of small graphs
+	first := append(corpusCases("corpus/C11"), seedCases()...)
+	nSeed := len(first)
+	small := enumerateSmall(3, 4, nil)
+	processBatch(append(first, small...))
+
+	// ---- seeded random schemas, in batches (bounded memory)
+	nRandom := 24000
+	runs := 4
+	if f.Thorough() {
+		nRandom = 1200000
+		runs = 8
+	}
+	const batch = 60000
+	for lo := 0; lo < nRandom && examined < 50; lo += batch {
+		hi := min(lo+batch, nRandom)
+		cases := make([]tcase, 0, hi-lo)
+		for i := lo; i < hi; i++ {
+			tc := genRandom(f.Rand(1000+i), i)
+			tc.Runs = runs
+			cases = append(cases, tc)
+		}
+		processBatch(cases)
+	}
+
+	res.Evaluations = nCases
 	res.DistinctNontrivial = nNontrivial
-	res.Exhaustive = f.Thorough()
-	scope := "all directed graphs with self-loops on <= 3 identities and all DAGs on 4 identities"
-	if !f.Thorough() {
-		scope = "all directed graphs with self-loops on <= 3 identities and a seeded 1/8 sample of the DAGs on 4 identities"
-	}
-	res.Rule = "source sets = corpus + seed witnesses + small graphs (" + scope + "; every assignment of the identities to two roots; roots = two modules importing each other | module + included submodule; distinct names | equal names across modules; bases written with and without prefix; one identityref leaf) + seeded random schemas (1-3 modules, 0-3 submodules included directly / by another submodule / by a foreign module / by nobody / belonging to an absent module, include cycles, 1-12 identities with 0-3 bases, names from a pool with upper/lower case and punctuation, arbitrary and clashing import prefixes, revisions and revision-dates, cycles, dangling and unknown-prefix bases, duplicate statements, missing imports/includes, identityref leaves). Every set: several fresh Modules under permuted load orders, all Go results must be equal; Go result = model result (two oracles); specification evaluated on the Go result. distinct_nontrivial = distinct source sets whose Go result has an identity with a non-empty list or an identity/cycle error"
+	res.Exhaustive = true
+	res.Rule = "source sets = corpus + seed witnesses + COMPLETE enumeration of small graphs (all directed graphs incl. self-loops on <= 3 identities and all DAGs on 4 identities; every assignment of the identities to two roots; roots = two modules importing each other | module + included submodule; distinct names | equal names across the two modules; bases written with and without prefix; one identityref leaf) + seeded random schemas (1-3 modules, 0-3 submodules included directly / by another submodule / by a foreign module / by nobody / belonging to an absent module, include cycles, 1-12 identities with 0-3 bases, names from a pool with upper/lower case and punctuation, arbitrary and clashing import prefixes, revisions and revision-dates, cycles, dangling and unknown-prefix bases, duplicate statements, missing imports/includes, identityref leaves). Every set: several fresh Modules under permuted load orders, all Go results must be equal; Go result = model result (under two map-order oracles); specification evaluated on the Go result. exhaustive refers to the small-graph space. distinct_nontrivial = distinct source sets whose Go result has an identity with a non-empty list or an identity/cycle error"
 	res.Distribution["by_generator"] = tags
 	res.Distribution["go_outcomes"] = outcomes
 	res.Distribution["seed_and_corpus_cases"] = nSeed
 	res.Distribution["small_graph_cases"] = len(small)
 	res.Distribution["random_cases"] = nRandom
-	res.Distribution["driver_requests"] = len(reqs)
+	res.Distribution["go_runs_per_random_case"] = runs
+	res.Distribution["driver_requests"] = nReqs
 	res.Write(f.Out)
 }
 
